@@ -490,6 +490,16 @@ def sd10(F, R):
             g2, _ = guarded(fn2, b, g_cmp("Eq", False, lambda a: has_sub(a, lambda q: q[0] == "call" and q[1] and path_matches(q[1], "SdCardInner::read_byte")), lambda z: z[:2] == ("c", 0)))
             n_guarded += int(g1) + int(g2)
         R.require(n_guarded >= 2, fn2, "status-checks", "single-block write must fail when CMD13's R1 or the following status byte is non-zero", fn2.loc(b13))
+        # ... and success needs BOTH status bytes to be zero: every path from the CMD13 call to an Ok return crosses `R1 == 0` and `byte2 == 0`
+        is_r1 = g_cmp("Eq", True, lambda a: has_sub(a, lambda q: q[0] == "call" and q[1] and path_matches(q[1], "SdCardInner::card_command") and q[3] == b13), lambda z: z[:2] == ("c", 0))
+        rb = [b for b, t in fn2.calls() if call_matches(t, ("SdCardInner::read_byte",)) and b in fn2.reach_after(b13)]
+        is_r2 = g_cmp("Eq", True, lambda a: has_sub(a, lambda q: q[0] == "call" and q[1] and path_matches(q[1], "SdCardInner::read_byte") and q[3] in rb), lambda z: z[:2] == ("c", 0))
+        for (b, i, v) in ok_returns(fn2):
+            if b not in fn2.reach_after(b13):
+                continue
+            o1, _ = guarded(fn2, b, is_r1, frm=fn2.succ(b13)[0][0])
+            o2, _ = guarded(fn2, b, is_r2, frm=fn2.succ(b13)[0][0])
+            R.require(o1 and o2, fn2, "status-both-zero", "single-block write can return Ok although %s is non-zero: a write the card reports as failed is taken as good" % ("the CMD13 R1 byte" if not o1 else "the second R2 status byte"), fn2.loc(b, i))
 
 
 @rule("SD11", ["C13"], floor=10,
@@ -715,3 +725,170 @@ def sd14(F, R):
         ok, _ = guarded(f, b, g_cmp("Eq", True, lambda a: has_sub(a, lambda q: q[0] == "call" and q[1] and path_matches(q[1], "SdCardInner::card_acmd")), lambda z: z[0] == "c" and z[1] == 0))
         ok2, _ = guarded(f, b, g_cmp("Eq", False, lambda a: has_sub(a, lambda q: q[0] == "call" and q[1] and path_matches(q[1], "SdCardInner::card_acmd")), lambda z: z[0] == "c" and z[1] == 0))
         R.require(ok or not ok2, f, "ready", "identification completes without ACMD41 == R1_READY_STATE", f.loc(b, i))
+
+
+DELAY_CTORS = {"new_command": "DEFAULT_COMMAND_RETRIES", "new_read": "DEFAULT_READ_RETRIES", "new_write": "DEFAULT_WRITE_RETRIES"}
+
+
+def _loop_budget(F, fn, h, body):
+    """('range', n) | ('delay', ctor) | ('delay-arg', argname) | None for a poll loop"""
+    for b in body:
+        t = fn.term(b)
+        if t["k"] == "Call" and (callee_of(t) or "").endswith("Iterator::next") and "core::ops::Range<" in t.get("callee_full", ""):
+            # constant end of the range
+            it = strip_refs(fn.term_of_operand(t["args"][0], b))
+            cands = [it] if it[0] != "var" else var_def_terms(fn, it[1])
+            for c in cands:
+                r = find_sub(c, ("agg", "Range", ["$a", "$b"]))
+                if r is not None:
+                    def cv(x):
+                        if x[0] == "c":
+                            return x[1]
+                        if x[0] == "cdef":
+                            from .mir import strip_generics
+                            try:
+                                return F.const(strip_generics(x[1]))
+                            except KeyError:
+                                return None
+                        return None
+                    lo, hi = cv(r["$a"]), cv(r["$b"])
+                    if isinstance(lo, int) and isinstance(hi, int):
+                        return ("range", hi - lo)
+            return ("range", None)
+    for b in body:
+        t = fn.term(b)
+        if t["k"] == "Call" and call_matches(t, ("sdcard::Delay::delay",)):
+            d = strip_refs(fn.term_of_operand(t["args"][0], b))
+            if d[0] == "arg":
+                return ("delay-arg", d[2])
+            if d[0] == "var" and 1 <= d[1] <= fn.arg_count and not [x for x in fn.defs().get(d[1], []) if x[0] in ("assign", "call")]:
+                return ("delay-arg", d[2])
+            if d[0] == "var":
+                for dt in var_def_terms(fn, d[1]):
+                    if dt[0] == "call" and dt[1]:
+                        nm = dt[1].split("::")[-1]
+                        if nm in DELAY_CTORS:
+                            return ("delay", nm)
+                        if nm == "new":
+                            return ("delay-new", dt[2][0])
+            if d[0] == "call" and d[1] and d[1].split("::")[-1] in DELAY_CTORS:
+                return ("delay", d[1].split("::")[-1])
+    return None
+
+
+@rule("SD15", ["C12", "C13"], floor=5,
+      doc="patience lower bounds (the card is legal, so the driver must wait long enough): the command-response poll in card_command reads at least N_CR+1 = 9 bytes before giving up (response may start in the 9th byte); the data-token wait in read_data lasts >= 100 ms and the busy waits of the write path >= 250 ms (SD Physical Layer 4.6.2.1 / 4.6.2.2) counted as retries x the 10 us Delay step; each Delay constructor passes its own DEFAULT_* constant")
+def sd15(F, R):
+    from .dataflow import var_def_terms as _v  # noqa
+    step_us = None
+    d = F.fn("sdcard::Delay::delay")
+    for b, t in d.calls():
+        if (callee_of(t) or "").endswith("delay_us"):
+            a = d.term_of_operand(t["args"][1], b)
+            if a[0] == "c":
+                step_us = a[1]
+    R.require(step_us is not None and step_us >= 1, d, "step", "Delay::delay must wait a constant number of microseconds per retry", d.loc(0), okdetail="%s us per retry" % step_us)
+    step_us = step_us or 0
+    consts = {}
+    for nm, cst in DELAY_CTORS.items():
+        f = F.fn("sdcard::Delay::" + nm)
+        args = [f.term_of_operand(t["args"][0], b) for b, t in f.calls() if (callee_of(t) or "").endswith("Delay::new")]
+        ok = len(args) == 1 and args[0][0] == "c" and args[0][2] and args[0][2].endswith(cst)
+        R.require(ok, f, "ctor:" + nm, "Delay::%s must be Delay::new(%s)" % (nm, cst), f.loc(0))
+        consts[nm] = F.const("sdcard::Delay::" + cst)
+
+    def budget_us(bud):
+        if bud is None:
+            return None
+        if bud[0] == "delay":
+            return consts[bud[1]] * step_us
+        return None
+
+    def polls(bud):
+        if bud is None:
+            return None
+        if bud[0] == "range":
+            return bud[1]
+        if bud[0] == "delay":
+            return consts[bud[1]] + 1
+        return None
+
+    # card_command response loop
+    fn = F.fn(SD + "::card_command")
+    found = 0
+    for (h, body, backs) in fn.loops():
+        if not any(fn.term(b)["k"] == "Call" and call_matches(fn.term(b), ("read_byte",)) for b in body):
+            continue
+        found += 1
+        p = polls(_loop_budget(F, fn, h, body))
+        R.require(p is not None and p >= 9, fn, "response-polls", "the command response is given up after %s byte reads; a card may legally answer in the 9th byte (N_CR = 8): every command times out on such a card" % p, fn.loc(h), okdetail="%s polls >= 9" % p)
+    R.require(found == 1, fn, "response-loop", "expected one response poll loop in card_command, found %d" % found, fn.loc(0))
+    # read_data token wait
+    fn = F.fn(SD + "::read_data")
+    found = 0
+    for (h, body, backs) in fn.loops():
+        if not any(fn.term(b)["k"] == "Call" and call_matches(fn.term(b), ("read_byte",)) for b in body):
+            continue
+        found += 1
+        us = budget_us(_loop_budget(F, fn, h, body))
+        R.require(us is not None and us >= 100000, fn, "token-wait", "the data start token is awaited for %s us; the read access time may be 100 ms" % us, fn.loc(h), okdetail="%s us >= 100 ms" % us)
+    R.require(found == 1, fn, "token-loop", "expected one token wait loop in read_data, found %d" % found, fn.loc(0))
+    # busy waits on the write path
+    nb = 0
+    for name in ("write", "write_data"):
+        fn = F.fn(SD + "::" + name)
+        for b, t in fn.calls():
+            if call_matches(t, ("wait_not_busy",)):
+                nb += 1
+                a = strip_refs(fn.term_of_operand(t["args"][1], b))
+                nm = a[1].split("::")[-1] if a[0] == "call" and a[1] else None
+                us = consts.get(nm, 0) * step_us if nm in consts else None
+                R.require(us is not None and us >= 250000, fn, "busy-wait", "a programming busy period is awaited for %s us (%s); the card may be busy for 250 ms" % (us, tstr(a)), fn.loc(b), okdetail="%s us >= 250 ms" % us)
+    R.require(nb >= 4, None, "busy-sites", "expected >= 4 busy waits on the write path, found %d" % nb)
+    wn = F.fn(SD + "::wait_not_busy")
+    bud = [_loop_budget(F, wn, h, body) for (h, body, backs) in wn.loops()]
+    R.require(bud == [("delay-arg", "delay")], wn, "busy-loop", "wait_not_busy must be bounded by the Delay it is given (found %s)" % bud, wn.loc(0))
+
+
+@rule("SD17", ["C14"], floor=5,
+      doc="the host data-out line idles high while the card is talking: every full-duplex receive (transfer_bytes -> SpiDevice::transfer_in_place) is handed a buffer that holds only 0xFF at that point - a local array freshly initialised to [0xFF; n], or the caller's buffer right after buffer.fill(0xFF) - and read_byte clocks out 0xFF; otherwise stale buffer contents (possibly a valid command frame) are clocked into the card during a data block")
+def sd17(F, R):
+    n = 0
+    for fn in F.fns:
+        if not fn.npath.startswith("sdcard::") or fn.npath.startswith("sdcard::proto"):
+            continue
+        dom = fn.dominators()
+        for b, t in fn.calls():
+            if call_matches(t, ("SdCardInner::transfer_byte",)) and fn.npath.endswith("::read_byte"):
+                n += 1
+                a = fn.term_of_operand(t["args"][1], b)
+                R.require(a[:2] == ("c", 0xFF), fn, "read_byte", "read_byte must clock out 0xFF, sends %s" % tstr(a), fn.loc(b))
+            if not call_matches(t, ("SdCardInner::transfer_bytes",)):
+                continue
+            n += 1
+            buf = strip_refs(fn.term_of_operand(t["args"][1], b))
+
+            def uses_buf(tt, bb):
+                return any(strip_refs(fn.term_of_operand(a, bb)) == buf for a in tt["args"])
+
+            init = None   # block of the establishing 0xFF initialisation
+            if buf[0] == "var":
+                for d in fn.defs().get(buf[1], []):
+                    if d[0] == "assign" and d[1] in dom.get(b, ()):
+                        v = fn.term_of_rvalue(d[3], d[1])
+                        allff = (v[0] == "repeat" and v[1][:2] == ("c", 0xFF)) or (v[0] == "agg" and v[3] and all(o[:2] == ("c", 0xFF) for o in v[3]))
+                        if allff:
+                            init = d[1]
+            else:
+                for bb, tt in fn.calls():
+                    if (callee_of(tt) or "").endswith("::fill") and bb in dom.get(b, ()) and bb != b and strip_refs(fn.term_of_operand(tt["args"][0], bb)) == buf and fn.term_of_operand(tt["args"][1], bb)[:2] == ("c", 0xFF):
+                        init = bb
+            if init is None:
+                R.bad(fn, "receive-buffer", "transfer_bytes(%s) receives into a buffer that was not set to 0xFF first: its previous contents are clocked out to the card while the card sends data" % tstr(buf), fn.loc(b))
+                continue
+            # nothing touches the buffer between the initialisation and the transfer
+            between = [bb for bb in fn.reach_after(init, cut_blocks=[b]) if b in fn.reach([bb], cut_blocks=[init])]
+            dirty = [bb for bb in between if bb != b and fn.term(bb)["k"] == "Call" and uses_buf(fn.term(bb), bb)]
+            stores = [bb for bb, ii, s in fn.stmts() if bb in between and bb != init and s["k"] == "Assign" and buf[0] == "var" and s["p"]["l"] == buf[1]]
+            R.require(not dirty and not stores, fn, "receive-buffer", "the receive buffer %s is modified between its 0xFF initialisation and the transfer" % tstr(buf), fn.loc(b), okdetail="%s is all 0xFF when handed to transfer_bytes" % tstr(buf))
+    R.require(n >= 5, None, "sites", "expected >= 5 receive sites, found %d" % n)
